@@ -173,12 +173,12 @@ pub fn run(tier: Tier, seed: u64) -> ! {
     rep.rule = "(1) complete enumeration of cells (17 write kinds) x (26 read paths) x (endings: rollback [3 observers], dropped session [2], failed commit through the txmgr.commit fail point [3], successful commit [2 + 1 after an unrelated commit]) x (2 epoch regimes), oracle = reference model state the observer is entitled to; (2) seeded random transactions of 2-7 independent mutations of different kinds ended by commit / rollback / drop / failed commit, each write judged by its probe read from a later observer (in or outside a transaction): after an abort no write may survive, after a commit none may be lost, and the number of partially visible transactions is counted. non-trivial = relevant cell (answer differs with/without the write) resp. transaction with >= 2 applied writes of >= 2 kinds".into();
     let fail = |on: bool| hooks::FAIL_COMMIT.store(on, Ordering::SeqCst);
     txm::run_matrix(&mut rep, &[Sc::Rollback, Sc::Drop, Sc::FailedCommit, Sc::CommittedBefore, Sc::UnrelatedCommit], &fail);
-    let n = tier.pick(600, 40_000);
+    let n = tier.pick(2000, 40_000);
     for case in 0..n {
         multi(&mut rep, seed, case);
     }
     if crate::txo::rules_as_modelled(&rep) {
-        let n: u64 = std::env::var("C02_OVERLAP").ok().and_then(|s| s.parse().ok()).unwrap_or(tier.pick(400, 12_000));
+        let n: u64 = std::env::var("C02_OVERLAP").ok().and_then(|s| s.parse().ok()).unwrap_or(tier.pick(800, 12_000));
         for case in 0..n {
             crate::txo::overlap_history(&mut rep, seed, case, crate::txo::Mode::Atomicity, &fail);
         }
